@@ -291,7 +291,44 @@ def rule_c(ctx, out):
     out.ok({"names_checked": n_names}, n=1)
 
 
+def rule_b(ctx, out):
+    """Constant folding cannot raise or run unboundedly on input-sized constants (shared analysis with C03.b)."""
+    from ..core.report import RuleOut
+    from . import C03
+    tmp = RuleOut("C10.b", "")
+    C03.rule_b(ctx, tmp)
+    out.instances += tmp.instances
+    out.satisfied += tmp.satisfied
+    out.samples.extend(tmp.samples[:3])
+    for f in tmp.findings:
+        if any(k in f.key for k in (":unbounded", ":zero-divisor", ":no-branch", ":float")):
+            out.findings.append(f)
+        else:
+            out.satisfied += 1     # a value-domain issue is C03's business, not a termination / exception issue
+
+
+def rule_d(ctx, out):
+    """Informational: fixpoint drivers `while(flag)` and whether each iteration that sets the flag also removes a record."""
+    GO = "sfs_generator.gasol_optimization"
+    drivers = []
+    for f in ctx.p.funcs_in(GO):
+        for n in own_nodes(f.node):
+            if isinstance(n, ast.While) and isinstance(n.test, ast.Name):
+                flag = n.test.id
+                sets = [s for s in ast.walk(n) if isinstance(s, ast.Assign) and any(isinstance(t, ast.Name) and t.id == flag for t in s.targets)
+                        or (isinstance(s, ast.Assign) and isinstance(s.targets[0], ast.Tuple) and any(isinstance(e, ast.Name) and e.id == flag for e in s.targets[0].elts))]
+                if sets:
+                    callee = [call_name(c) for s in sets for c in calls_in(s)]
+                    drivers.append({"function": f.name, "flag": flag, "driven_by": sorted(set(x for x in callee if x))})
+    out.info["fixpoint_drivers"] = drivers
+    out.info["note"] = ("termination of these loops rests on each rule strictly shrinking the record list or a finite re-labelling order; "
+                        "that is a semantic argument per rule and no verdict is derived from it")
+    out.ok({"fixpoint_drivers_listed": len(drivers)})
+
+
 RULES = [
     ("C10.a", "exception containment on the per-block path", 6, rule_a),
+    ("C10.b", "constant folding cannot raise or diverge", 15, rule_b),
+    ("C10.d", "fixpoint drivers (informational)", 1, rule_d),
     ("C10.c", "no statically certain crash in reachable code", 300, rule_c),
 ]
